@@ -17,6 +17,16 @@ CHECKS = {
             "For every executed instruction of C01's three generators the number of raw clock edges between two boundaries must equal the documented control-word count of the form/addressing mode (data-dependent for JR, MUL, DIV) plus one wait for each model access to an address <= 0xEF and none for I/O addresses; MUL/DIV are swept over all operand pairs.",
             "Trusted: the step-count table `steps()` in harness/src/isa.rs (DESIGN.md Appendix A). Counts are only taken for steps issued as raw edges; step-mode independence of the count is C11's equivalence.",
             "DESIGN.md §4 C15"),
+    "C05": ("exploration",
+            "invariant monitor after every clock edge (stateful testing) plus differential lock-step with the instruction-level model; enumerated LDSP / PC-limit / jump-target sweeps and proptest-generated programs and halt-time stimuli",
+            "Every clock edge of every run is observed: Running implies SP outside the band table written in the harness and PC <= limit; an edge that writes an invalid SP/PC must end ErrorStopped; Running->ErrorStopped only with invalid SP/PC or opcode 0x00 loaded, Running->Stopped only with opcode 0x01 loaded; at instruction level the halt kind must match the opcode fetched by the reference model. At each halt the machine must be bit-for-bit unchanged by clock edges in both step modes, keep its state under key-interrupt/input/board stimuli, stay error-stopped under continue, and after continue from STOP resume in lock-step with the model. Complete sweeps: LDSP v (256 values) x 9 follow-ups x 5 stack sizes; every PC limit x STOP/0x00/NOP at limit-1/limit/limit+1; jumps to all 256 addresses under 10 limits.",
+            "Trusted: band table and PC rule in harness/src/props/c05.rs; reference model isa.rs. An error stop caused by a micro-level intermediate write (e.g. operand-fetch PC increment) is accepted when the observed SP/PC is invalid at that edge. Stack size NotSet / program size Auto without load are outside the domain (documented precondition).",
+            "DESIGN.md §4 C05"),
+    "C09": ("exploration",
+            "exhaustive graph construction of the control space through the real clock-edge function with forced inputs (verif hook), graph invariants, concrete exhaustive MUL/DIV sweep",
+            "Breadth-first from reset over (micro-address, IR): each state is stepped with all 16 flag patterns x 6 ALU-latch outcomes x pending interrupt and, on IR-loading words, all 256 bytes. On the resulting graph: only programmed words from defined opcodes, address bits 8-5 equal IR bits 7-4, every path from a defined opcode (with defined second byte) reaches a fetch within 32 words, cycles only inside the MUL/DIV routines, and the never-completing first bytes are exactly 0x4C-0x4F, 0xE0-0xEF. MUL and DIV are executed concretely for all 65 536 operand pairs (and Rd=Rs) within their documented bounds. Thorough adds the full 512 x 256 product of forced states.",
+            "Trusted: verif_force_control sets exactly the next-address inputs; defined opcode sets written in the harness. The level-interrupt input cannot be forced (constantly absent in this code base).",
+            "DESIGN.md §4 C09"),
     "C08": ("exploration",
             "exhaustive enumeration against a documented function table (differential oracle)",
             "All 2 097 152 ALU input points are enumerated in both tiers and compared (result, carry, zero, negative) with a function table written from the documentation in 16-bit arithmetic; any single-entry deviation of the ALU is detected.",
